@@ -195,9 +195,16 @@ def _get_feasible_point(a_mat: np.ndarray, b: np.ndarray, interior: bool = True)
     if interior:
         obj = np.array([0, 0, -1])
     res = linprog(c=obj, A_ub=a_mat_new, b_ub=b_new, bounds=(None, None))
-    if res["status"] == 2:
+    if res["status"] != 0:
         raise ValueError("Constraints are unfeasible")
     return np.array(res["x"])[0:-1]  # noqa: WPS349 Found redundant subscript slice
+
+
+def _get_extreme_point(direction: List[numeric], a_mat: np.ndarray, b: np.ndarray) -> np.ndarray:
+    res = linprog(c=direction, A_ub=a_mat, b_ub=b, bounds=(None, None))
+    if res["status"] != 0:
+        raise ValueError("Could not find the vertices of the region")
+    return np.array(res["x"])
 
 
 # given a bounded polygon, return its vertices
@@ -212,14 +219,10 @@ def _get_bounding_vertices(a_mat: np.ndarray, b: np.ndarray) -> Tuple[tuple, tup
         x, y = zip(*hs.intersections)
     except QhullError:
         # polygon has no interior. optimize four directions
-        res = linprog(c=[0, 1], A_ub=a_mat, b_ub=b, bounds=(None, None))
-        p1 = np.array(res["x"])
-        res = linprog(c=[0, -1], A_ub=a_mat, b_ub=b, bounds=(None, None))
-        p2 = np.array(res["x"])
-        res = linprog(c=[1, 0], A_ub=a_mat, b_ub=b, bounds=(None, None))
-        p3 = np.array(res["x"])
-        res = linprog(c=[-1, 0], A_ub=a_mat, b_ub=b, bounds=(None, None))
-        p4 = np.array(res["x"])
+        p1 = _get_extreme_point([0, 1], a_mat, b)
+        p2 = _get_extreme_point([0, -1], a_mat, b)
+        p3 = _get_extreme_point([1, 0], a_mat, b)
+        p4 = _get_extreme_point([-1, 0], a_mat, b)
         x = (p1[0], p2[0], p3[0], p4[0])
         y = (p1[1], p2[1], p3[1], p4[1])
     # sort the points by angle from the center of the polygon
